@@ -68,13 +68,21 @@ def file_bytes(lines, final_newline=True):
     return data
 
 
-def read_script(path, data, delim, comment, opts=None):
-    s = ["file %s %s" % (hx(path), hx(data))]
-    if opts:
-        # options object + readConfig is exercised by C15; a plain file is read through readfile
-        pass
-    s += ["readfile 1 %s %s %s" % (hx(path), hx(bytes(delim)), hx(bytes(comment))),
-          "dumpx 1", "errloc", "free 1"]
+def read_script(path, data, delim, comment, opts=None, via="file"):
+    """via (Parser.tla, entry points): the same line loop serves every entry point.
+    file         econf_readFile(path)
+    dirs-main    the file is the only (main) file of a layered read through econf_readDirs
+    dirs-dropin  the file is the only drop-in (no main file) of a layered read through econf_readDirs"""
+    d, c = hx(bytes(delim)), hx(bytes(comment))
+    if via == "file":
+        return ["file %s %s" % (hx(path), hx(data)), "readfile 1 %s %s %s" % (hx(path), d, c), "dumpx 1", "errloc", "free 1"]
+    R = os.path.dirname(path)
+    s = ["rm %s" % hx(R)]
+    if via == "dirs-main":
+        s.append("file %s %s" % (hx(R + "/etc/f.conf"), hx(data)))
+    else:
+        s.append("file %s %s" % (hx(R + "/etc/f.conf.d/f.conf"), hx(data)))
+    s += ["readdirs 1 %s %s %s %s %s %s" % (hx(R + "/usr/etc"), hx(R + "/etc"), hx("f"), hx("conf"), d, c), "dumpx 1", "errloc", "free 1"]
     return s
 
 
@@ -105,7 +113,7 @@ def tla_bool(b):
 # --------------------------------------------------------------------------------------
 # forward replay of exported cases
 # --------------------------------------------------------------------------------------
-def replay_cases(exe, recs, fields, verdict, pid, nontrivial, fingerprint, want_err=False, framing="alt"):
+def replay_cases(exe, recs, fields, verdict, pid, nontrivial, fingerprint, want_err=False, framing="alt", vias=("file",)):
     """recs: exported TLC records (delim, comment, lines, exp, ...). Returns (n, n_nontrivial, samples).
     framing (Parser.tla FileBytes): the final newline of a file is optional and means nothing.
     "both": every file whose last line is not empty is read in both framings; "alt": every second one
@@ -120,14 +128,18 @@ def replay_cases(exe, recs, fields, verdict, pid, nontrivial, fingerprint, want_
         else:
             fr = [i % 2 == 0]
         for fnl in fr:
-            path = "%s/c%d/f.conf" % (root, len(runs) % 64)
-            cases.append((len(runs), read_script(path, file_bytes(r["lines"], fnl), r["delim"], r["comment"])))
-            runs.append((i, fnl))
+            j = len(runs)
+            path = "%s/c%d/f.conf" % (root, j % 64)
+            via = vias[j % len(vias)]
+            # Parser.tla EffComment: an empty comment set stands for "#"
+            cgiven = [] if (len(vias) > 1 and r["comment"] == [35] and (j // len(vias)) % 2) else r["comment"]
+            cases.append((j, read_script(path, file_bytes(r["lines"], fnl), r["delim"], cgiven, via=via)))
+            runs.append((i, fnl, via, cgiven))
     res = core.run_cases(exe, cases)
     nn = 0
     samples = []
     seen = set()
-    for j, (i, fnl) in enumerate(runs):
+    for j, (i, fnl, via, cgiven) in enumerate(runs):
         r = recs[i]
         out = res.get(j)
         key = canon([r["delim"], r["comment"], r["lines"], fnl])
@@ -140,14 +152,14 @@ def replay_cases(exe, recs, fields, verdict, pid, nontrivial, fingerprint, want_
             if len(samples) < 3:
                 samples.append({"delim": core.uncodes(r["delim"]), "comment": core.uncodes(r["comment"]),
                                 "file": file_bytes(r["lines"]).decode("latin-1"), "expect": r["exp"]["rc"]})
-        case = {"kind": "file", "delim": r["delim"], "comment": r["comment"], "lines": r["lines"], "final_newline": fnl,
+        case = {"kind": "file", "delim": r["delim"], "comment": cgiven, "lines": r["lines"], "final_newline": fnl, "via": via,
                 "text": file_bytes(r["lines"], fnl).decode("latin-1") + ("" if fnl else "<no final newline>"), "exp": r["exp"], "python": r.get("python", False)}
         if out is None or out["crash"]:
             verdict.violation(fingerprint(r, "crash"), dict(case, crash=(out or {}).get("crash")),
                               "library crashed / hung on a conventional file:\n%s\n%s" % (case["text"], (out or {}).get("crash", "")[:600]))
             continue
         ev = out["ev"]
-        rd = next(e for e in ev if e["op"] == "readfile")
+        rd = next(e for e in ev if e["op"] in ("readfile", "readdirs"))
         dm = next(e for e in ev if e["op"] == "dump")
         el = next(e for e in ev if e["op"] == "errloc")
         o = obs_of_dump(rd, dm, el)
@@ -169,8 +181,9 @@ def replay_cases(exe, recs, fields, verdict, pid, nontrivial, fingerprint, want_
                     a["cb"] = b["cb"] = []
         if pe != po:
             verdict.violation(fingerprint(r, "diff"), dict(case, got=po, want=pe),
-                              "file (delim %r comment %r):\n%s\nexpected %s\nlibrary  %s" % (
-                                  core.uncodes(r["delim"]), core.uncodes(r["comment"]), case["text"], canon(pe), canon(po)))
+                              "file (delim %r comment %r%s):\n%s\nexpected %s\nlibrary  %s" % (
+                                  core.uncodes(r["delim"]), core.uncodes(cgiven), "" if via == "file" else ", read through econf_readDirs as the only %s" % ("main file" if via == "dirs-main" else "drop-in"),
+                                  case["text"], canon(pe), canon(po)))
             continue
         if "file" in fields or pid == "C17":
             bad = [e for e in o["ents"] if e.get("file") != o["path"] or not (o["path"] or "").endswith("/f.conf")]
@@ -383,7 +396,7 @@ def check_c13(exe, tier, seed, verdict):
                             ["ParseIsMeaning"], sample=sample, seed=seed)
     if r.violated:
         verdict.violation("C13:model", {"tlc": r.out[-3000:]}, "TLC: Parser error code/line differs from Meaning\n" + r.out[-1500:])
-    n, nn, samples = replay_cases(exe, recs, ("g", "k", "v"), verdict, "C13", nt_c13, fp_parser("C13"))
+    n, nn, samples = replay_cases(exe, recs, ("g", "k", "v"), verdict, "C13", nt_c13, fp_parser("C13"), vias=("file", "dirs-main", "dirs-dropin"))
     from . import p_layers
     extra = p_layers.c13_tree_cases(exe, tier, seed, verdict)
     es = check_errstrings(exe, verdict)
@@ -509,7 +522,7 @@ def check_c05(exe, tier, seed, verdict):
         ins = rec.get("ins", [])
         feat = sorted({x for i in ins for x in i.get("feat", [])})
         return "C05:%s:%s" % (what, "+".join(feat))
-    n, nn, samples = replay_cases(exe, recs, ("g", "k", "v"), verdict, "C05", nt_c05, fp)
+    n, nn, samples = replay_cases(exe, recs, ("g", "k", "v"), verdict, "C05", nt_c05, fp, vias=("file", "dirs-main", "dirs-dropin"))
     # the same under the parsing options: a comment line is inert under PYTHON_STYLE (indented comment lines after an
     # entry in particular) and JOIN_SAME_ENTRIES as well
     from . import p_options
@@ -550,7 +563,7 @@ def replay(pid, path):
     print(json.dumps(rec, indent=1)[:4000])
     if case.get("kind") == "file":
         root = core.ROOT + "/rp"
-        s = read_script(root + "/f.conf", file_bytes(case["lines"], case.get("final_newline", True)), case["delim"], case["comment"])
+        s = read_script(root + "/f.conf", file_bytes(case["lines"], case.get("final_newline", True)), case["delim"], case["comment"], via=case.get("via", "file"))
         out = core.run_cases(exe, [("r", s)], jobs=1)["r"]
         print(json.dumps(out, indent=1)[:6000])
     return 0
